@@ -25,6 +25,12 @@ CLAIMS = {
 CLAIMS['C19'] = dict(ref='DESIGN.md §3 C19',
                      text="Bounded symbolic model checking of Canonical on every 128-bit pattern (loops fully unrolled): same value and sign, the unique cohort member whose exponent is closest to zero, NaN payload and Inf garbage stripped, idempotent. Encoding independence of Add/Sub, comparisons, Round/Ceil/Floor, New/Ldexp/Frexp is discharged by the value-level oracles of C01/C04/C08/C11, whose operands range over all cohort members.",
                      note=TRUST + "Encoding independence of formatting, conversions and the transcendental functions is not covered by this check.")
+CLAIMS['C02'] = dict(ref='DESIGN.md §2, §3 C02',
+                     text="Bounded symbolic model checking of MulWithMode (both 128-bit finite patterns and the mode symbolic): the exact product (up to 226 bits) reaches reduce128/reduce256 unchanged with the summed exponent, XOR sign and no sticky flag; zero products give the XOR-signed zero; Mul/Quo equal the WithMode forms under every DefaultRoundingMode; reduce128/reduce256 are proved against the rounding specification (normal, subnormal, flush, overflow). QuoWithMode's digit-generation loops are NOT covered (stated in the evidence).",
+                     note=TRUST + "Assume-guarantee at the rounding kernel. The division half of the property is only covered for special operands (C15) and the DefaultRoundingMode equivalence; the long-division loops are outside this check.")
+CLAIMS['C15'] = dict(ref='DESIGN.md §3 C15',
+                     text="Bounded symbolic model checking of special-operand behaviour: Add/Sub/Mul/Quo/QuoRem on all operand class pairs with a NaN/Inf/zero operand, ten elementary functions on NaN/Inf/zero/invalid arguments, NaN propagation, payload and Payload.String of created NaNs, and the classification predicates on all 2^128 patterns; every bit inside a class is symbolic; expected result classes are produced at check time by the float64 operations of the installed toolchain.",
+                     note=TRUST + "Reference = float64 semantics of the installed Go toolchain. One open known finding (Expm1(-0), pinned by the repository's own vectors) is listed in known_findings.json. The math.Pow table is not part of this check.")
 NA = {
     'C16': "accuracy of the exp/log series is numerical analysis over iterated 192-bit mul/div with data-dependent loops; no bounded solver query decides a one-ulp error bound (DESIGN.md §5)",
     'C17': "convergence of the fixed-count Heron/Halley iterations with symbolic 192-bit division is not expressible as a decidable bounded query (DESIGN.md §5)",
